@@ -10,7 +10,7 @@ import z3
 
 from . import engine as E
 from . import shims
-from .absmap import P, key_pp, key_ps, make_absmap_class, make_tablemap_class
+from .absmap import P, key_pp, key_ps, t_of, make_absmap_class, make_tablemap_class
 
 TOL = z3.Q(1, 10 ** 9)
 LOG09 = math.log(0.9)
@@ -197,7 +197,7 @@ class Oracle:
         return self.mp.q(key_pp(self.obs(t), f"n{s}"))
 
     def t_obs(self, s, t):
-        return self.mp.t(key_ps(self.obs(t), f"n{s[0]}", f"n{s[1]}")).t
+        return E.lift(t_of(self.mp, key_ps(self.obs(t), f"n{s[0]}", f"n{s[1]}"), f"n{s[0]}", f"n{s[1]}"))
 
     def proj_name(self, s, t):
         if is_edge(s):
